@@ -273,7 +273,9 @@ func Ident(name string, q Quoting) string {
 	case QBacktick:
 		return "`" + strings.ReplaceAll(name, "`", "``") + "`"
 	case QDouble:
-		return `"` + strings.ReplaceAll(name, `"`, `""`) + `"`
+		// a backslash of the name is written twice (it escapes the character
+		// behind it), a quote of the name doubled
+		return `"` + strings.ReplaceAll(strings.ReplaceAll(name, `\`, `\\`), `"`, `""`) + `"`
 	}
 	// a name that is not made of word characters (and dots) cannot be written bare
 	for _, r := range name {
